@@ -85,9 +85,47 @@ Big(fam, n) ==
            <<"ClaimsSet", Map(<< <<Nat2I(1), Ta>> >> \o TxtPairs(n))>>,
            <<"CoseKdfContext", Arr(<<Nat2I(1), Arr(<<Nil, Nil, Nil>>), Arr(<<Nil, Nil, Nil>>), Arr(<<Nat2I(128), B0>>)>> \o [k \in 1..n |-> Bs(<<k % 256>>)])>> }
     [] OTHER -> {}
+(* ---------- "roundtrip" (C06) and "builder" (C19): n calls on one builder ---------- *)
+RtSigE == [prot |-> EmptyProt, unprot |-> EmptyHeader, sig |-> <<>>]
+RtOk(b) == [ok |-> TRUE, bytes |-> b]
+RtAad == <<161>>
+RtRecip(k) == [prot |-> EmptyProt, unprot |-> [EmptyHeader EXCEPT !.kid = <<k % 256, 1>>], cipher |-> <<>>, recips |-> <<>>]
+Tail2(ty) == <<[ev |-> "build"], [ev |-> "encode", api |-> "vec"], [ev |-> "decode", api |-> "slice", ty |-> ty, reg |-> ""]>>
+RtSteps(kind, n) ==
+  CASE kind = "sign" ->
+         <<[ev |-> "new", ty |-> "CoseSign"], [ev |-> "call", m |-> "payload", bytes |-> <<80>>]>>
+         \o [k \in 1..n |-> [ev |-> "call", m |-> "add_created_signature", sigv |-> RtSigE, aad |-> RtAad, res |-> RtOk(<<k % 256, k \div 256>>)]]
+         \o Tail2("CoseSign")
+         \o <<[ev |-> "verify", m |-> "verify_signature", which |-> n - 1, aad |-> RtAad, res |-> [ok |-> TRUE, bytes |-> <<6>>]]>>
+    [] kind = "encrypt" ->
+         <<[ev |-> "new", ty |-> "CoseEncrypt"]>>
+         \o [k \in 1..n |-> [ev |-> "call", m |-> "add_recipient", rcp |-> RtRecip(k)]]
+         \o <<[ev |-> "call", m |-> "create_ciphertext", pt |-> <<80>>, aad |-> RtAad, res |-> RtOk(<<1, 1>>)]>>
+         \o Tail2("CoseEncrypt")
+         \o <<[ev |-> "verify", m |-> "decrypt", aad |-> RtAad, res |-> [ok |-> TRUE, bytes |-> <<6>>]]>>
+    [] kind = "mac" ->
+         <<[ev |-> "new", ty |-> "CoseMac"], [ev |-> "call", m |-> "payload", bytes |-> <<80>>]>>
+         \o [k \in 1..n |-> [ev |-> "call", m |-> "add_recipient", rcp |-> RtRecip(k)]]
+         \o <<[ev |-> "call", m |-> "create_tag", aad |-> RtAad, res |-> RtOk(<<1, 1>>)]>>
+         \o Tail2("CoseMac")
+         \o <<[ev |-> "verify", m |-> "verify_tag", aad |-> RtAad, res |-> [ok |-> TRUE, bytes |-> <<6>>]]>>
+    [] kind = "header" ->          \* n extras set through the builder, then used as a protected header that is signed
+         <<[ev |-> "new", ty |-> "Header"]>>
+         \o [k \in 1..n |-> [ev |-> "call", m |-> "value", z |-> Lbl(n + 1 - k), val |-> Nat2I(k % 24)]]
+         \o <<[ev |-> "build"], [ev |-> "encode", api |-> "vec"], [ev |-> "decode", api |-> "slice", ty |-> "Header", reg |-> ""]>>
+    [] kind = "key" ->
+         <<[ev |-> "ctor", m |-> "new_okp_key"]>>      \* completed below
+         \o [k \in 1..n |-> [ev |-> "call", m |-> "param", z |-> Lbl(n + 1 - k), val |-> Nat2I(k % 24)]]
+         \o <<[ev |-> "build"], [ev |-> "encode", api |-> "vec"], [ev |-> "decode", api |-> "slice", ty |-> "CoseKey", reg |-> ""]>>
+    [] kind = "claims" ->
+         <<[ev |-> "new", ty |-> "ClaimsSet"]>>
+         \o [k \in 1..n |-> [ev |-> "call", m |-> "text_claim", txt |-> Txt3(k).s, val |-> Nat2I(k % 24)]]
+         \o <<[ev |-> "build"], [ev |-> "encode", api |-> "vec"], [ev |-> "decode", api |-> "slice", ty |-> "ClaimsSet", reg |-> ""]>>
+RtCases == {[k |-> "rt", kind |-> kd, n |-> n] : kd \in (IF Fam = "roundtrip" THEN {"sign", "encrypt", "mac"} ELSE {"header", "key", "claims"}),
+                                                     n \in {m \in Sizes : m <= 40}}      \* sessions are quadratic in n for TLC
 CanonCases == {[k |-> "canon", n |-> n, ord |-> o] : n \in Sizes, o \in {"Lexicographic", "LengthFirstLexicographic"}}
 
-Cases == IF Fam = "dup" THEN DupCases ELSE IF Fam = "canon" THEN CanonCases ELSE {[k |-> "big", n |-> 0, c |-> x] : x \in UNION {Big(Fam, m) : m \in Sizes}}
+Cases == IF Fam = "dup" THEN DupCases ELSE IF Fam = "canon" THEN CanonCases ELSE IF Fam \in {"roundtrip", "builder"} THEN RtCases ELSE {[k |-> "big", n |-> 0, c |-> x] : x \in UNION {Big(Fam, m) : m \in Sizes}}
 CaseSeq == SetToSeq(Cases)
 
 (* judged in a successor state: TLC evaluates initial states on its small main-thread stack *)
@@ -112,6 +150,17 @@ InvCanon == go /\ C.k = "canon" =>
   /\ Canon_Sorted(Key_ToCbor(k2).x, C.ord)
   /\ {k2.params[i] : i \in 1..Len(k2.params)} = {CanonKey.params[i] : i \in 1..Len(CanonKey.params)}
   /\ Key_Canonicalize(k2, C.ord) = k2
+
+(* n calls: the session runs to its end, the decoded message has n entries, what is verified is what was created last *)
+RtObs == RunObs(InitState, RtSteps(C.kind, C.n), <<>>)
+InvRt == go /\ C.k = "rt" =>
+  LET o == RtObs IN
+  /\ \A i \in 1..Len(o) : o[i].kind = "ok"
+  /\ C.kind = "sign" => (Len(o[Len(o) - 1].val[1].sigs) = C.n /\ Last(o).cb[1] = <<(C.n) % 256, (C.n) \div 256>> /\ Last(o).cb[2] = Last(o[C.n + 2].cb))
+  /\ C.kind \in {"encrypt", "mac"} => (Len(o[Len(o) - 1].val[1].recips) = C.n /\ Last(o).cb[2] = Last(o[C.n + (IF C.kind = "mac" THEN 3 ELSE 2)].cb))
+  /\ C.kind = "header" => Len(Last(o).val[1].rest) = C.n
+  /\ C.kind = "key" => Len(Last(o).val[1].params) = C.n
+  /\ C.kind = "claims" => Len(Last(o).val[1].rest) = C.n
 
 (* ---------- vectors ---------- *)
 RECURSIVE Depth(_)
@@ -149,6 +198,11 @@ Emit == go =>
          /\ (deep \/ Session(ty, FromCbor(ty, "", item).x))
          /\ PrintT(ToJson([kind |-> "fixpoint", props |-> <<"C07">>, ty |-> ty, reg |-> "", tagged |-> FALSE, wires |-> <<Enc(item), EncS(item, Strat2(item))>>,
                            tags |-> <<>>, nt |-> TRUE]))
+    [] C.k = "rt" ->
+         PrintT(ToJson([kind |-> "session", props |-> <<(IF Fam = "roundtrip" THEN "C06" ELSE "C19"), "C11">>, steps |-> RtSteps(C.kind, C.n), nt |-> TRUE,
+                        expect |-> [i \in 1..Len(RtObs) |-> [kind |-> RtObs[i].kind, err |-> RtObs[i].err, bytes |-> RtObs[i].bytes, cb |-> RtObs[i].cb,
+                                                            ret |-> RtObs[i].ret, val |-> (IF i + 4 > Len(RtObs) THEN RtObs[i].val ELSE <<>>),
+                                                            noval |-> (i + 4 <= Len(RtObs)), judge |-> TRUE, slotfree |-> TRUE, pinerr |-> FALSE]]]))
     [] C.k = "canon" ->
          LET k2 == Key_Canonicalize(CanonKey, C.ord) IN
          PrintT(ToJson([kind |-> "canon", props |-> <<"C20">>, key |-> CanonKey, ord |-> C.ord, nt |-> TRUE, tags |-> <<>>,
